@@ -274,6 +274,21 @@ class Verifier:
                 return concretize(z3.Or(*alts)) if alts else False
             return self.quant_cells(a[0], a[1], False)
 
+        @b('vec_eq')
+        def _vec_eq(I_, a, k):
+            x, y = a
+            xs, ys = I.iterate(x), I.iterate(y)
+            if len(xs) != len(ys):
+                return False
+            acc = True
+            for p, q in zip(xs, ys):
+                e = I.truth_term(I.equals(p, q))
+                if e is False:
+                    return False
+                if e is not True:
+                    acc = e if acc is True else z3.And(acc, e)
+            return acc
+
         @b('symbolic')
         def _symbolic(I_, a, k):
             return True
